@@ -72,7 +72,7 @@ def gen_case(rng):
             bench.append(b)
         if rng.random() < 0.1:
             bench = [int(round(v)) for v in bench]
-    return dict(start_day=d0, equity=eq, periods=rng.choice([252, 252, 252, 12, 52]), scale=rng.choice([2.0, 0.5, 1000.0, 3.7]), mode=mode,
+    return dict(start_day=d0, equity=eq, periods=rng.choice([252, 252, 252, 12, 52, 365.25, 252 * 6.5, 50.4, 252 / 5.0, 260.714]), scale=rng.choice([2.0, 0.5, 1000.0, 3.7]), mode=mode,
                 benchmark=bench)
 
 
@@ -154,7 +154,7 @@ def execute(case):
 
 
 def model_line(case, real):
-    toks = ['stats', str(case['periods']), str(len(case['equity']))]
+    toks = ['stats', str(f2b(float(case['periods']))), str(len(case['equity']))]
     for d, e in zip(real['days'], case['equity']):
         toks += [str(d), str(f2b(e))]
     return ' '.join(toks)
